@@ -213,7 +213,6 @@ theorem fault_rejected_core (O : Oracles) (w : World) (src : ClassSrc) (f : Faul
     refine defineClass_error_of_check (mem_checks_nonTypedpy (mem_entries_addEntry src n _))
       (e := .typeErr) ?_
     simp only [Bool.and_eq_true, Bool.not_eq_true'] at ha
-    simp only [Fault.knownHole] at hk
     have hb : isBareType a = true := by
       cases a <;> simp_all [nonTypedpyType, isBareType]
     simp [nonTypedpyCheck, ha, hb]
